@@ -44,6 +44,7 @@ type Config struct {
 	Timed             bool // virtual clock: tick events, timers fire only when due
 	AppResetFlag      bool // the application's ToAdmin callback sets ResetSeqNumFlag=Y on every outgoing Logon
 	Flip              bool // this side is TW talking to ISLD (the mirror identity, for two-engine worlds)
+	SessionWindow     bool // a daily session window of +-6 h around the current time is configured (event "window-closes")
 	SenderSub         string
 	TargetSub         string
 }
@@ -369,6 +370,11 @@ func (w *World) boot(first bool) error {
 	} else if cfg.DataDictionary != "" {
 		ss.Set(config.DataDictionary, cfg.DataDictionary)
 	}
+	if cfg.SessionWindow {
+		now := time.Now().UTC()
+		ss.Set(config.StartTime, now.Add(-6*time.Hour).Format("15:04:05"))
+		ss.Set(config.EndTime, now.Add(6*time.Hour).Format("15:04:05"))
+	}
 	for k, v := range cfg.Extra {
 		ss.Set(k, v)
 	}
@@ -632,6 +638,8 @@ type Event struct {
 	Name string
 	// SendGroup: the application message carries a repeating group with a nested group
 	SendGroup bool
+	// SendGroupLast: a flat NoPartyIDs group (453) as the last body field
+	SendGroupLast bool
 }
 
 func (e Event) String() string { return e.Name }
@@ -664,6 +672,8 @@ func (w *World) Enabled(e *Event) bool {
 		return !sn.PendingStop
 	case "restart":
 		return !sn.Connected && w.dir != ""
+	case "window-closes":
+		return w.Cfg.SessionWindow && sn.SessionTime
 	case "tick":
 		// time cannot pass a due timer
 		return w.Cfg.Timed && !(w.ArmS && w.DeadS <= w.VNow) && !(w.ArmP && w.DeadP <= w.VNow)
@@ -733,6 +743,12 @@ func (w *World) Apply(e *Event) (obs []Obs) {
 			m.Body.SetGroup(g)
 			m.Body.SetString(55, "IBM").SetString(54, "1").SetString(60, "20240101-00:00:00").SetString(40, "1")
 		}
+		if e.SendGroupLast {
+			g := quickfix.NewRepeatingGroup(453, quickfix.GroupTemplate{quickfix.GroupElement(448), quickfix.GroupElement(447), quickfix.GroupElement(452)})
+			g.Add().SetString(448, "P1").SetString(447, "D").SetString(452, "1")
+			g.Add().SetString(448, "P2").SetString(447, "D").SetString(452, "2")
+			m.Body.SetGroup(g)
+		}
 		if err := w.VS.QueueForSend(m); err != nil {
 			w.log = append(w.log, Obs{K: "senderr", Txt: err.Error()})
 		}
@@ -744,6 +760,9 @@ func (w *World) Apply(e *Event) (obs []Obs) {
 		w.VS.StopReq()
 	case "tick":
 		w.VNow += w.TickUnit()
+	case "window-closes":
+		// the one-second ticker of run() notices that the session window has ended
+		w.VS.CheckSessionTime(time.Now().Add(12 * time.Hour))
 	case "restart":
 		w.Restarts++
 		if err := w.Restart(); err != nil {
